@@ -20,7 +20,9 @@ HERE = os.path.dirname(os.path.dirname(os.path.abspath(__file__)))
 
 def _gen(batch, sig, pre, call, repo):
     """batch: list of dicts with constants; call: python expression using names of sig and constants via {name}"""
-    lines = ["import sys", f"sys.path.insert(0, {repo!r}); sys.path.insert(1, {HERE!r})", "from harness import chbodies as B", ""]
+    lines = ["import sys", f"sys.path.insert(0, {repo!r}); sys.path.insert(1, {HERE!r})", "import geometry_tools, geometry_tools.automata.fsa, geometry_tools.automata.gap_parse, geometry_tools.representation, geometry_tools.utils.words",
+             f"assert geometry_tools.__file__.startswith({repo!r}), geometry_tools.__file__",
+             "from harness import chbodies as B", ""]
     args = ", ".join(f"{n}: {t}" for n, t in sig)
     index = {}
     for k, consts in enumerate(batch):
